@@ -125,13 +125,13 @@ def answer (cfg : Cfg) (ws : List String) : Cfg × String :=
       (cfg, if !inRange g then "range" else if !(chk (n.natAbs, 1) && chk r) then "isrnd-fail" else toString (bits g))
     | _, _ => (cfg, "bad-op")
   | ["dur", z] => match z.toInt? with
-    | some z => (cfg, s!"{periodStr (Dur.newOf z.natAbs)} {Dur.roundTrip z}")
+    | some z => (cfg, if Dur.monthsOk z.natAbs then s!"{periodStr (Dur.newOf z.natAbs)} {Dur.roundTrip z}" else "range")
     | none => (cfg, "bad-op")
   | ["durns", z] => match z.toInt? with
-    | some z => (cfg, toString (Dur.roundTripNs z))
+    | some z => (cfg, if Dur.monthsOk (z.natAbs / 100000000) then toString (Dur.roundTripNs z) else "range")
     | none => (cfg, "bad-op")
   | ["dtext", ns] => match ns.toInt? with
-    | some ns => (cfg, strOf (DurText.newDurationType ns))
+    | some ns => (cfg, if Dur.monthsOk (ns.natAbs / 100000000) then strOf (DurText.newDurationType ns) else "range")
     | none => (cfg, "bad-op")
   | ["dparse", w] => (cfg, answerParse w)
   | ["dtrange", z0, z1, step] => match z0.toInt?, z1.toInt?, step.toInt? with
